@@ -15,7 +15,8 @@ RULE = ("seeded random keys (1-3 keys of int/float/str/bool/datetime/categorical
         "checked: one index level per key named after the keys; label order (ascending / lexicographic by default, category order for categoricals, "
         "first appearance with sort=False); only observed labels, or all labels with neutral values when observed_only=False; Series named like the input "
         "for a single 1-D input, otherwise a DataFrame with one column per input in input order (named like the inputs, _arr_<i> for unnamed), each column "
-        "identical to the result for that input alone; non-trivial = >= 2 labels not first appearing in sorted order; distinct = distinct (dataset, shape, flags)")
+        "identical to the result for that input alone (further columns carry nulls of their own); two integer keys with more than 2^32 label combinations (label set, order under both sort settings, sizes); "
+        " non-trivial = >= 2 labels not first appearing in sorted order; distinct = distinct (dataset, shape, flags)")
 ASSUMPTIONS = ["ordering of heterogeneous label types is pandas'"]
 FNS = ["size", "count", "sum", "mean", "min", "max", "first", "last"]
 SHAPES = ["ndarray", "series_named", "series_unnamed", "series_named_0", "list", "dict", "frame", "frame_intcols", "array2d", "polars_series"]
